@@ -691,8 +691,23 @@ func (s *Store) UpdateSession(session *Session) error {
 	s.mu.Lock()
 	defer s.mu.Unlock()
 
-	if _, exists := s.sessions[session.ID]; !exists {
+	existing, exists := s.sessions[session.ID]
+	if !exists {
 		return fmt.Errorf("session not found: %s", session.ID)
+	}
+
+	// Update indexes if MAC or IP changed
+	if existing.MAC != nil && (session.MAC == nil || existing.MAC.String() != session.MAC.String()) {
+		delete(s.sessionByMAC, existing.MAC.String())
+	}
+	if session.MAC != nil {
+		s.sessionByMAC[session.MAC.String()] = session.ID
+	}
+	if existing.IPv4 != nil && (session.IPv4 == nil || !existing.IPv4.Equal(session.IPv4)) {
+		delete(s.sessionByIP, existing.IPv4.String())
+	}
+	if session.IPv4 != nil {
+		s.sessionByIP[session.IPv4.String()] = session.ID
 	}
 
 	session.UpdatedAt = time.Now()
